@@ -1605,3 +1605,10 @@ Proof.
   - intros i Hi Hv. destruct (Hone i Hi Hv) as [arr Harr]. exists arr.
     rewrite <- lw_comp_name_eq. exact Harr.
 Qed.
+
+(** the column names of an accepted trough cover the columns *)
+Lemma mk_trough_colnames_length a L : mk_trough a = Ok L ->
+  length (t_cn a (g_cols (lw_geom L))) = g_cols (lw_geom L).
+Proof.
+  intro H. pose proof H as H'. inv_trough H'. rewrite <- (trough_ncol _ _ _ H Tcols). exact Tcn.
+Qed.
